@@ -24,3 +24,4 @@ def rules(ctx):
     S.state_writer_rules(ctx)
     S.key_compare_rules(ctx)
     S.c06_r3_durable_drains(ctx)
+    S.survey_residue_rules(ctx)
